@@ -8,7 +8,9 @@ package sim
 // in-flight, registering and deleting nodes that arise from simulated lifecycles.
 
 import (
+	"encoding/json"
 	"fmt"
+	"os"
 	"sort"
 	"strings"
 	"time"
@@ -32,6 +34,7 @@ import (
 type passInfo struct {
 	task      *Task
 	startStep int
+	evSeq     uint64
 	checked   bool // caches caught up when the pass took its snapshot
 	nodes     []*corev1.Node
 	pods      []*corev1.Pod
@@ -136,6 +139,7 @@ func (p *provProfile) Run(s *Sim) {
 	p.k.RegDelayMax = 90 * time.Second
 	p.k.ReadyDelayMax = 30 * time.Second
 	p.k.WatchPods()
+	p.k.StartCCM(40 * time.Second)
 	if !s.Cfg.NoFaults {
 		p.k.PNoRegister = []float64{0, 0.1}[ch.Pick("prov.pnoreg", 2)]
 		p.k.PLateDevices = []float64{0, 0.5}[ch.Pick("prov.plate", 2)]
@@ -645,6 +649,7 @@ func (p *provProfile) observe() {
 		pi := &passInfo{task: c.Task, startStep: s.step, toNode: map[types.UID]string{}, toNew: map[types.UID]string{}, order: map[string][]types.UID{}, created: map[string]*v1.NodeClaim{}}
 		pi.checked = p.caughtUp()
 		st := s.store
+		pi.evSeq = st.evSeq
 		for _, o := range st.List(gvkNode) {
 			pi.nodes = append(pi.nodes, o.(*corev1.Node))
 		}
@@ -780,6 +785,17 @@ func (p *provProfile) onTaskDone(t *Task) {
 		return
 	}
 	s.Probe("pass-with-placements")
+	// the snapshot was taken when the pass parked at its pod list; a server write before the list executed makes the
+	// pass's node snapshot older than its pod list: not a caught-up pass
+	for _, r := range t.Reads {
+		if r.Verb == "list" && r.Kind == "Pod" && strings.Contains(r.Key, "spec.nodeName=") && r.Step >= pi.startStep {
+			if r.EvSeq != pi.evSeq && pi.checked {
+				pi.checked = false
+				s.Probe("pass-snapshot-stale")
+			}
+			break
+		}
+	}
 	if !pi.checked {
 		s.Probe("pass-unchecked")
 		return
@@ -1382,6 +1398,10 @@ func (p *provProfile) checkInterPod(pi *passInfo, targets map[string]*ModelNode)
 			relevant = true
 		}
 		all = append(all, &Placed{Pod: pod, Target: target, New: true, Node: mn, Domains: dom})
+		if os.Getenv("VERIF_DEBUG_C02") != "" {
+			b, _ := json.Marshal(pod.Spec)
+			fmt.Fprintf(os.Stderr, "DBG placed %s labels=%v on %s spec=%s\n", pod.Name, pod.Labels, target, b)
+		}
 	}
 	tkeys := make([]string, 0, len(pi.order))
 	for k := range pi.order {
@@ -1392,7 +1412,21 @@ func (p *provProfile) checkInterPod(pi *passInfo, targets map[string]*ModelNode)
 		name := strings.TrimPrefix(target, "nodeclaim/")
 		if nc, isNew := pi.created[name]; isNew && strings.HasPrefix(target, "nodeclaim/") {
 			dom := p.ncDomains(pi, nc)
-			hn := &ModelNode{Name: "new-" + nc.Name, Labels: nc.Labels, Taints: nc.Spec.Taints}
+			if os.Getenv("VERIF_DEBUG_C02") != "" {
+				fmt.Fprintf(os.Stderr, "DBG new nodeclaim %s reqs=%v zoneDomains=%v pods=%v\n", nc.Name, nc.Spec.Requirements, dom(corev1.LabelTopologyZone), pi.order[target])
+			}
+			// labels the new node will certainly carry: the NodeClaim's labels plus every single-valued requirement;
+			// keys that are still undetermined stay absent, which can only make a node ineligible (conservative)
+			hl := map[string]string{}
+			for k, v := range nc.Labels {
+				hl[k] = v
+			}
+			for _, r := range nc.Spec.Requirements {
+				if r.Operator == corev1.NodeSelectorOpIn && len(r.Values) == 1 {
+					hl[r.Key] = r.Values[0]
+				}
+			}
+			hn := &ModelNode{Name: "new-" + nc.Name, Labels: hl, Taints: nc.Spec.Taints}
 			for _, uid := range pi.order[target] {
 				add(uid, target, hn, dom)
 			}
@@ -1437,7 +1471,18 @@ func (p *provProfile) checkInterPod(pi *passInfo, targets map[string]*ModelNode)
 		return
 	}
 	s.Probe("c02-plan-checked")
-	if o, msg := CheckInterPod(all, p.namespaces()); o != "" {
+	// the placements are observed through the nominations that follow each written NodeClaim: when the pass ended
+	// with an error (a create failed or never happened) the plan is only partly visible
+	partial := pi.task.Err != nil
+	for _, w := range pi.task.Writes {
+		if w.Kind == "NodeClaim" && w.Verb == "create" && w.Err != nil {
+			partial = true
+		}
+	}
+	if partial {
+		s.Probe("c02-plan-partial")
+	}
+	if o, msg := CheckInterPod(all, p.namespaces(), partial); o != "" {
 		s.Violate("C02", o, "%s", msg)
 	}
 }
